@@ -10,25 +10,34 @@ from ..core import Violation
 ID = 'C02'
 
 
-def build_case(word, prog, kind, fast, emb, lead=2, tail=1):
+def build_case(word, prog, kind, fast, emb, lead=2, tail=1, prog2=None, chunk=3):
     base, tick, unit = emb
     w = [progs.SHAPES['FLAT']] * lead + progs.shapes(word) + [progs.SHAPES['FLAT']] * tail
-    tf = '3m' if fast else '1m'
+    tf = ('%dm' % chunk) if fast else '1m'
     if fast:
-        while len(w) % 3:
+        while len(w) % chunk:
             w.append(progs.SHAPES['FLAT'])
     rows = S.make_candles(w, base, tick)
-    cfg = {'type': kind, 'fee': 0.001 if kind == 'futures' else 0.0, 'leverage': 2, 'balance': 100 * base * unit}
-    return {'cfg': cfg, 'routes': [{'symbol': 'BTC-USDT', 'timeframe': tf, 'spec': prog}], 'candles': {'BTC-USDT': rows.tolist()},
+    cfg = {'type': kind, 'fee': 0.001 if kind == 'futures' else 0.0, 'leverage': 2, 'balance': 100 * base * unit * (3 if prog2 else 1)}
+    case = {'cfg': cfg, 'routes': [{'symbol': 'BTC-USDT', 'timeframe': tf, 'spec': prog}], 'candles': {'BTC-USDT': rows.tolist()},
             'fast': fast, 'observe': 0}
+    if prog2 is not None:
+        # second symbol on the mirrored word, twice the price level: every order belongs to exactly one symbol's candles
+        mw = [(-g, -d, wd, wu) for (g, d, wu, wd) in w]
+        case['routes'].append({'symbol': 'ETH-USDT', 'timeframe': tf, 'spec': prog2})
+        case['candles']['ETH-USDT'] = S.make_candles(mw, 2 * base, tick).tolist()
+    return case
 
 
 def _run(args):
-    word, pname, prog, kind, fast, emb = args
-    case = build_case(word, prog, kind, fast, emb)
+    word, pname, prog, kind, fast, emb = args[:6]
+    p2name = args[6] if len(args) > 6 else None
+    chunk = args[7] if len(args) > 7 else 3
+    prog2 = dict(progs.programs(emb[1], emb[2], kind))[p2name] if p2name else None
+    case = build_case(word, prog, kind, fast, emb, prog2=prog2, chunk=chunk)
     r = S.run_session(case)
     out = {'viols': [], 'nontrivial': False, 'stats': {}}
-    ident = {'word': list(word), 'program': pname, 'kind': kind, 'fast': fast, 'embedding': list(emb)}
+    ident = {'word': list(word), 'program': pname, 'kind': kind, 'fast': fast, 'embedding': list(emb), 'program2': p2name, 'chunk': chunk}
     if r['error']:
         out['viols'].append(Violation('unexpected-exception', {'exc': r['error'][0], 'sim': 'fast' if fast else 'normal'}, ident,
                                       '%s: %s' % (r['error'][0], r['error'][1])).to_json())
@@ -53,6 +62,16 @@ def cases(ctx):
             for pname, prog in P:
                 for w in progs.words(sigma, n):
                     yield (w, pname, prog, kind, fast, emb)
+    # two symbols sharing one wallet (second one on the mirrored word), and a 5-minute fast chunk
+    P = progs.programs(emb[1], emb[2], 'futures')
+    for fast in (False, True):
+        for i, (pname, prog) in enumerate(P):
+            p2 = P[(i + 4) % len(P)][0]
+            for w in progs.words(sigma, n - 1):
+                yield (w, pname, prog, 'futures', fast, emb, p2, 3)
+    for i, (pname, prog) in enumerate(P):
+        for w in progs.words(sigma, n - 1 if ctx.quick else n):
+            yield (w, pname, prog, 'futures', True, emb, None, 5)
 
 
 def run(ctx):
@@ -81,7 +100,7 @@ def run(ctx):
                    'AND at least one resting order survived a whole matching phase (both clauses of the property were exercised)')
     sigma, n = (progs.SIGMA6, 4) if ctx.quick else (progs.SIGMA8, 5)
     cov['bounds'] = {'alphabet': {k: progs.SHAPES[k] for k in sigma}, 'word_length': n, 'lead_in': 2,
-                     'programs': [p for p, _ in progs.programs(1, 1, 'futures')], 'simulators': ['normal 1m', 'fast 3m chunks']}
+                     'programs': [p for p, _ in progs.programs(1, 1, 'futures')], 'simulators': ['normal 1m', 'fast 3m chunks', 'fast 5m chunks'], 'two_symbol_sessions': 'every program paired with another one on the mirrored word (word length n-1)'}
     ctx.sample({'word': list(allc[0][0]), 'program': allc[0][1], 'kind': allc[0][3], 'fast': allc[0][4]})
     ctx.sample({'word': list(allc[-1][0]), 'program': allc[-1][1], 'kind': allc[-1][3], 'fast': allc[-1][4]})
     ctx.assumptions += ['orders created while a minute is being matched are exempt from the missed-fill clause for that minute only (C08 covers them)',
@@ -90,5 +109,5 @@ def run(ctx):
 
 def replay(case, ctx):
     P = dict(progs.programs(case['embedding'][1], case['embedding'][2], case['kind']))
-    r = _run((tuple(case['word']), case['program'], P[case['program']], case['kind'], case['fast'], tuple(case['embedding'])))
+    r = _run((tuple(case['word']), case['program'], P[case['program']], case['kind'], case['fast'], tuple(case['embedding']), case.get('program2'), case.get('chunk', 3)))
     return [Violation.from_json(v) for v in r['viols']]
